@@ -142,9 +142,14 @@ def postOrderF : Nat → Heap → Nat → List Nat
   | 0, _, _ => []
   | n + 1, h, i => (kidIds h i).flatMap (fun j => postOrderF n h j) ++ [i]
 
-/-- mirrors _td.py `share_memory_`: children first, each finishing with `self.lock_()` -/
+/-- one node of `share_memory_`, after its children: a TensorDict finishes with `self.lock_()` (_td.py); a lazy stack, whose
+members are all locked by then, registers itself with `_propagate_lock` (_lazy.py, repaired: `lock_()` would be a no-op) -/
+def shareNode (acc : Heap) (j : Nat) : Heap :=
+  if (acc.node j).lazy then propLockF (j + 1) acc none j else (lockEv acc j).1
+
+/-- mirrors _td.py / _lazy.py `share_memory_`: children first -/
 def shareEv (h : Heap) (i : Nat) : Heap :=
-  (postOrderF (i + 1) h i).foldl (fun acc j => (lockEv acc j).1) h
+  (postOrderF (i + 1) h i).foldl shareNode h
 
 /-- mirrors _td.py `_memmap_(inplace=True)`: every plain node of the subtree gets `_is_locked = True`
 directly (a lazy stack's `_memmap_` only recurses into its members). -/
@@ -264,6 +269,23 @@ def mutEv (h : Heap) (i : Nat) (m : Mut) : Heap × Out :=
       | some n' => (h.upd i (fun _ => n'), .ok)
       | none => (h, .errKey)
 
+/-- follow nested keys through tensor-collection entries (`_get_leaf_tensordict`, `_set_tuple`, the recursion of
+`_select` / `_exclude`); `none` = a key of the path is missing or is not a tensor collection -/
+def walk (h : Heap) : Nat → List String → Option Nat
+  | i, [] => some i
+  | i, k :: rest =>
+    match (h.node i).kids.find? (·.1 == k) with
+    | some e => walk h e.2 rest
+    | none => none
+
+/-- a mutator called on `i` with a nested key: the entry lives in the node the path leads to, and it is *that* node's lock
+that is consulted (`_set_tuple` ends in the target's `_set_str`; `del_` / `pop` / `rename_key_` end in the target's own
+decorated `del_` / `_set_str`; `_select` / `_exclude` test the lock at every level of their recursion). -/
+def mutPathEv (h : Heap) (i : Nat) (path : List String) (m : Mut) : Heap × Out :=
+  match walk h i path with
+  | some t => mutEv h t m
+  | none => (h, .errKey)
+
 /-! ### events -/
 
 inductive Ev where
@@ -279,6 +301,8 @@ inductive Ev where
   /-- the harness drops its handle on `i` and collects; only legal when no live container holds `i` -/
   | gcDrop (i : Nat)
   | mut (i : Nat) (m : Mut)
+  /-- the same through a nested key `(*path, k)` given to `i` -/
+  | mutPath (i : Nat) (path : List String) (m : Mut)
   /-- `cm = i.lock_(); cm.__enter__()` / `cm = i.unlock_(); …` / `cm.__exit__(None, None, None)` (LIFO) -/
   | withLock (i : Nat)
   | withUnlock (i : Nat)
@@ -296,7 +320,7 @@ def held (h : Heap) (i : Nat) : Bool :=
 
 /-- events address live objects only (the harness cannot call a method on a collected object) -/
 def Ev.target : Ev → Option Nat
-  | .lock i | .unlock i | .viaShare i | .viaMemmap i | .gcDrop i | .mut i _ | .withLock i | .withUnlock i => some i
+  | .lock i | .unlock i | .viaShare i | .viaMemmap i | .gcDrop i | .mut i _ | .mutPath i _ _ | .withLock i | .withUnlock i => some i
   | _ => none
 
 def stepLive (s : State) : Ev → State × Out
@@ -321,6 +345,7 @@ def stepLive (s : State) : Ev → State × Out
     if held s.heap i then (s, .errOther)
     else ({ s with heap := s.heap.upd i (fun x => { x with alive := false }) }, .ok)
   | .mut i m => let r := mutEv s.heap i m; ({ s with heap := r.1 }, r.2)
+  | .mutPath i path m => let r := mutPathEv s.heap i path m; ({ s with heap := r.1 }, r.2)
   | .withLock i =>
     -- `_as_context_manager("is_locked")`: `_last_op` is recorded only if `is_locked` changed
     let pre := isLocked s.heap i
